@@ -107,8 +107,18 @@ fn call_built(l: &Built, r: &Built, op: Operation, pairing: u8, f32_: bool, clon
                 (false, true) => ma.boolean(&mb.0[0], op),
                 (false, false) => ma.boolean(mb, op),
             };
-            let out = heap::off(|| (geom::image(&res), if save { Some(geom::from_mp(&res)) } else { None }));
+            let mut out = heap::off(|| (geom::image(&res), if save { Some(geom::from_mp(&res)) } else { None }));
             drop(res);
+            if fake_bug() {
+                // self-test of detection and minimisation only (SIM_FAKE_BUG=c12): the third and later union on a thread
+                // that has seen a difference before "remembers" it
+                FAKE.with(|f| {
+                    let (mut d, mut u) = f.get();
+                    if op == Operation::Difference { d += 1; }
+                    if op == Operation::Union { u += 1; if d > 0 && u >= 3 { out.0.push(0xBAD); } }
+                    f.set((d, u));
+                });
+            }
             out
         }};
     }
@@ -116,6 +126,14 @@ fn call_built(l: &Built, r: &Built, op: Operation, pairing: u8, f32_: bool, clon
         (true, Some(a), Some(b)) => go!(a, b),
         _ => go!(&l.mp64, &r.mp64),
     }
+}
+
+thread_local! {
+    static FAKE: std::cell::Cell<(u32, u32)> = const { std::cell::Cell::new((0, 0)) };
+}
+fn fake_bug() -> bool {
+    static ON: std::sync::OnceLock<bool> = std::sync::OnceLock::new();
+    *ON.get_or_init(|| std::env::var("SIM_FAKE_BUG").map(|v| v == "c12").unwrap_or(false))
 }
 
 struct Expect {
@@ -707,6 +725,9 @@ impl World for C12World {
         // 1. whole clients
         if self.clients.len() > 1 {
             for c in 0..self.clients.len() {
+                if self.clients[c].is_empty() {
+                    continue;
+                }
                 let mut w = self.clone();
                 w.clients[c].clear(); // keep indices of the others stable for the explicit schedule
                 if w.clients.iter().any(|s| !s.is_empty()) {
